@@ -12,7 +12,7 @@
 //! the request length.
 
 use crate::node::{fresh_dir, RecAdapter};
-use crate::poolsim::{PoolChain, SimRelay};
+use crate::poolsim::{RealPool, SimRelay};
 use crate::rng::{fnv64, SimRng};
 use crate::sim::{CaseResult, Violation};
 use crate::world::{OutInfo, World};
@@ -35,7 +35,7 @@ use std::sync::mpsc::{channel, Receiver, Sender};
 use std::sync::Arc;
 use std::time::{Duration, Instant};
 
-type Pool = TransactionPool<PoolChain, SimRelay>;
+type Pool = RealPool;
 
 pub struct ApiNode {
 	pub chain: Arc<Chain>,
@@ -96,27 +96,14 @@ fn decode_reply(method: &str, v: Value) -> bool {
 impl ApiNode {
 	pub fn new(world: &World, start: usize, tag: &str) -> Result<ApiNode, String> {
 		let dir = fresh_dir(tag);
-		let adapter = Arc::new(RecAdapter::default());
-		let chain = Chain::init(
-			dir.join("chain_data").to_str().unwrap().to_string(),
-			adapter.clone(),
-			world.genesis.clone(),
-			pow::verify_size,
-			false,
-			None,
-		)
-		.map_err(|e| format!("{:?}", e))?;
-		let chain = Arc::new(chain);
-		for id in world.path_to(start) {
-			chain
-				.process_block(world.blocks[id].block.clone(), world.opts)
-				.map_err(|e| format!("base block #{}: {:?}", id, e))?;
-		}
 		let relay = Arc::new(SimRelay {
 			fail_next_stem: std::sync::atomic::AtomicBool::new(false),
 			stem_relay_failed: std::sync::atomic::AtomicU64::new(0),
 		});
-		let pool = TransactionPool::new(
+		let (chain, pool, peers, _events) = crate::poolsim::assemble_node(
+			&dir,
+			world.genesis.clone(),
+			relay,
 			PoolConfig {
 				accept_fee_base: global::get_accept_fee_base(),
 				reorg_cache_period: 30,
@@ -124,13 +111,13 @@ impl ApiNode {
 				max_stempool_size: 50,
 				mineable_max_weight: global::max_block_weight(),
 			},
-			Arc::new(PoolChain { chain: chain.clone() }),
-			relay,
-		);
-		let pool = Arc::new(RwLock::new(pool));
+		)?;
+		for id in world.path_to(start) {
+			chain
+				.process_block(world.blocks[id].block.clone(), world.opts)
+				.map_err(|e| format!("base block #{}: {:?}", id, e))?;
+		}
 		let sync = Arc::new(SyncState::new());
-		let store = PeerStore::new(dir.join("peers").to_str().unwrap()).map_err(|e| format!("peer store: {:?}", e))?;
-		let peers = Arc::new(Peers::new(store, Arc::new(grin_p2p::DummyAdapter {}), grin_p2p::P2PConfig::default()));
 		for (i, st) in [State::Healthy, State::Banned, State::Defunct].iter().enumerate() {
 			peers.save_peer(&PeerData {
 				addr: PeerAddr(format!("10.0.0.{}:13414", i + 1).parse().unwrap()),
